@@ -26,6 +26,8 @@ pub enum WStep {
     Prefix(u16),
     /// return Pending (and wake immediately)
     Pending,
+    /// fail with `Interrupted`, accepting nothing (the caller may simply try again)
+    Interrupted,
 }
 
 #[derive(Clone, Debug, Serialize, Deserialize, PartialEq)]
@@ -125,6 +127,12 @@ impl AsyncWrite for Scripted {
                 }
                 cx.waker().wake_by_ref();
                 Poll::Pending
+            }
+            WStep::Interrupted => {
+                if !buf.is_empty() {
+                    s.partial_or_pending_write = true;
+                }
+                Poll::Ready(Err(std::io::Error::from(std::io::ErrorKind::Interrupted)))
             }
         }
     }
@@ -314,6 +322,8 @@ fn execute(case: &StreamCase) -> (Result<(), (String, String)>, CaseInfo) {
                         }
                         if enabled { &mut plain_after } else { &mut plain_before }.extend_from_slice(&chunk[..n]);
                     }
+                    // the scripted transport refused this attempt: nothing was written, the stream goes on
+                    Poll::Ready(Err(e)) if e.kind() == std::io::ErrorKind::Interrupted => {}
                     Poll::Ready(Err(e)) => return (Err(("io-error".into(), format!("poll_write: {e}"))), info),
                     Poll::Pending => {}
                 }
@@ -341,6 +351,7 @@ fn execute(case: &StreamCase) -> (Result<(), (String, String)>, CaseInfo) {
                             if enabled { &mut plain_after } else { &mut plain_before }.extend_from_slice(&chunk[off..off + n]);
                             off += n;
                         }
+                        Poll::Ready(Err(e)) if e.kind() == std::io::ErrorKind::Interrupted => {}
                         Poll::Ready(Err(e)) => return (Err(("io-error".into(), format!("poll_write: {e}"))), info),
                         Poll::Pending => {}
                     }
@@ -509,6 +520,7 @@ impl Check for C05 {
             3 => (1u16..40).prop_map(WStep::Prefix),
             1 => (40u16..1500).prop_map(WStep::Prefix),
             2 => Just(WStep::Pending),
+            1 => Just(WStep::Interrupted),
         ];
         let r = prop_oneof![
             2 => (1u16..4).prop_map(RStep::Chunk),
